@@ -26,8 +26,11 @@ def fn_text(f, name, vis=""):
     if uses_life:
         gens.append("'a")
     if f["lwhere"]:
-        gens.append("'b")
-        where.append("'b: 'a")
+        if f["linline"]:
+            gens.append("'b: 'a")
+        else:
+            gens.append("'b")
+            where.append("'b: 'a")
     need_name = f["ret"] == "borrow-deps"
     amp = {"ref": "&", "reflife": "&'a ", "value": ""}[d["pass"]]
     params = []
@@ -122,6 +125,11 @@ def witness(f, fpath, tpath, recv_ty, recv_mk, k):
 
 def render(c):
     mode, fns = c["mode"], c["fns"]
+    for g in fns:
+        if not isinstance(g["lwhere"], bool):
+            # "none" / "where" (`where 'b: 'a`) / "inline" (`<'a, 'b: 'a>`)
+            g["linline"] = g["lwhere"] == "inline"
+            g["lwhere"] = g["lwhere"] != "none"
     under = ", ".join("u8" if k == "type" else "3" for k in c["traitparams"])
     targs = f"<{under}>" if under else ""
     f = fns[0]
@@ -146,13 +154,13 @@ def render(c):
         if "reflife" in f["params"] or f["ret"] == "borrow-arg" or f["deps"]["pass"] == "reflife":
             lts.append("'a")
         if f["lwhere"]:
-            lts.append("'b")
+            lts.append("'b: 'a" if f["linline"] else "'b")
         selfp = "&'a self" if f["deps"]["pass"] == "reflife" else "&self"
         ps = []
         for j, t in enumerate(f["params"], start=1):
             ps.append(f"p{j}: " + ("&'b str" if (t == "reflife" and f["lwhere"] and j == 2) else TY[t]))
         ret = {"unit": "", "owned": " -> String", "borrow-arg": " -> &'a str"}[f["ret"]]
-        w = " where 'b: 'a" if f["lwhere"] else ""
+        w = " where 'b: 'a" if (f["lwhere"] and not f["linline"]) else ""
         g = f"<{', '.join(lts)}>" if lts else ""
         attr = "TI, delegate_by = ref" if dyn else "TI, delegate_by = Del"
         out.append(f"#[::entrait::entrait({attr})]\npub trait Tr {{ {a}fn f{g}({', '.join([selfp] + ps)}){ret}{w}; }}\n")
